@@ -40,6 +40,7 @@ class Scope:
     def __init__(self, parent=None):
         self.vars = dict(parent.vars) if parent else {}
         self.in_loop = parent.in_loop if parent else False
+        self.any_loop = parent.any_loop if parent else False   # inside a for body (also a filtered loop: `loop` exists, length/revindex are avoided)
         self.macros = dict(parent.macros) if parent else {}
         self.caller = parent.caller if parent else False
         self.no_include = parent.no_include if parent else False
@@ -420,7 +421,7 @@ class Gen:
 
     def stmt(self, sc, depth):
         r = self.r
-        k = r.randint(0, 31) if depth > 0 else r.randint(0, 7)
+        k = r.randint(0, 35) if depth > 0 else r.randint(0, 7)
         f = self.features.add
         if self.line_prefixes and r.random() < 0.12:
             f("line-statement")
@@ -456,6 +457,7 @@ class Gen:
             f("for")
             inner = Scope(sc)
             inner.in_loop = True
+            inner.any_loop = True
             v = self.fresh("v")
             kind = r.randint(0, 4)
             if kind == 0:
@@ -582,6 +584,76 @@ class Gen:
             f("nested-loops")
             return (self.tag("for a in li") + self.tag("for b in [1, 2]") + "{{ loop.index }}{{ a + b }}" + self.tag("if b > p0") + self.tag("break") + self.tag("endif")
                     + self.tag("endfor") + "{{ loop.index0 }}{{ loop.last }}" + self.tag("endfor"))
+        if k == 32:
+            # a macro DEFINED here that reads names of the scope it is defined in — the loop object of the enclosing for,
+            # loop / with / set variables — and is called right away.  Whether the enclosing body mentions `loop` outside the
+            # macro is left to the other statements of that body.
+            f("macro-reads-enclosing-scope")
+            m = self.fresh("me")
+            parts = [self.text(4)]
+            if sc.any_loop:
+                f("macro-uses-enclosing-loop")
+                refs = ["loop.index", "loop.index0", "loop.first", "loop.last", "loop.cycle('x', 'y')", "loop.depth"]
+                if sc.in_loop:
+                    refs += ["loop.length", "loop.revindex"]
+                parts += [self.var(r.choice(refs)) for _ in range(r.randint(1, 2))]
+            names = [n for n, t in sc.vars.items() if t in ("int", "str", "bool")]
+            if names:
+                parts.append(self.var(r.choice(names)))
+            if r.random() < 0.3:
+                parts.append(self.tag("if q") + self.var("q") + self.tag("endif"))
+            r.shuffle(parts)
+            s = self.tag(f"macro {m}(q=0)") + "".join(parts) + self.tag("endmacro")
+            s += "".join(self.var(r.choice([f"{m}()", f"{m}(2)", f"{m}()|upper", f"{m}(q=i0)"])) for _ in range(r.randint(1, 2)))
+            if r.random() < 0.25:
+                f("macro-nested-in-macro")
+                n = self.fresh("mo")
+                s = (self.tag(f"macro {n}(a)") + self.tag(f"macro {n}i()") + "{{ varargs|length }}{{ kwargs|dictsort }}" + self.tag("endmacro")
+                     + self.var(f"{n}i(1, 2, z=3)") + "{{ a }}" + self.tag("endmacro") + self.var(f"{n}(5)")) + s
+            return s
+        if k == 33:
+            # a block, and a macro whose only use of `self` is inside the macro
+            f("macro-uses-self")
+            b, m = self.fresh("sb"), self.fresh("ms")
+            s = self.tag(f"block {b}") + self.text(5) + self.tag("endblock")
+            s += self.tag(f"macro {m}()") + "<" + self.var(f"self.{b}()") + ">" + self.tag("endmacro") + self.var(f"{m}()")
+            if r.random() < 0.3:
+                s += self.var(f"self.{b}()")
+            return s
+        if k in (34, 35):
+            # a block INSIDE a construct that buffers its body: its output must go through the buffer (filter, capture, macro
+            # result, caller(), recursive loop), not straight to the output
+            f("block-in-buffering-construct")
+            b = self.fresh("bb")
+            bsc = self.root_scope(); bsc.no_include = True
+            blk = self.tag(f"block {b}" + r.choice(["", "", " scoped"])) + self.body(bsc, 1, r.randint(1, 2)) + self.tag("endblock" + r.choice(["", " " + b]))
+            inner = self.text(3) + blk + self.text(3)
+            j = r.randint(0, 5)
+            if j == 0:
+                f("block-in-filter")
+                return self.tag("filter " + r.choice(["upper", "lower", "replace('a', 'b')", "upper|trim"])) + inner + self.tag("endfilter")
+            if j == 1:
+                f("block-in-set")
+                g = self.fresh("g")
+                sc.vars[g] = "markup"
+                return self.tag(f"set {g}") + "[" + inner + "]" + self.tag("endset") + self.var(g) + self.var(g + "|upper")
+            if j == 2:
+                f("block-in-macro")
+                m = self.fresh("mb")
+                return self.tag(f"macro {m}()") + "(" + inner + ")" + self.tag("endmacro") + self.var(f"{m}()") + self.var(f"{m}()|lower")
+            if j == 3:
+                f("block-in-call")
+                m = self.fresh("mw")
+                return (self.tag(f"macro {m}()") + "<" + self.var(r.choice(["caller()", "caller()|upper"])) + ">" + self.tag("endmacro")
+                        + self.tag(f"call {m}()") + inner + self.tag("endcall"))
+            if j == 4:
+                f("block-in-recursive-loop")
+                return (self.tag("for n in tree recursive") + "{{ n.v }}" + self.tag(f"block {b} scoped") + self.text(3) + "{{ n.v }}" + self.tag("endblock")
+                        + self.tag("if n.c") + "(" + self.var("loop(n.c)") + ")" + self.tag("endif") + self.tag("endfor"))
+            f("block-in-nested-buffers")
+            g = self.fresh("g")
+            sc.vars[g] = "markup"
+            return (self.tag(f"set {g}") + self.tag("filter upper") + inner + self.tag("endfilter") + self.tag("endset") + self.var(g))
         if k == 27:
             f("cond-expr")
             return self.var(f"{self.e_any(sc, 1)} if {self.e_bool(sc, 2)} else {self.e_any(sc, 1)}")
@@ -644,6 +716,27 @@ class Gen:
         base += self.tag("block tail") + self.body(rs(), 1, 1) + self.tag("endblock") + self.text(4)
         if r.random() < 0.3:
             base += self.var(r.choice(["self.inner()", "self.tail()"]))
+        if r.random() < 0.3:
+            f("macro-uses-self")
+            base += self.tag("macro selfmac()") + "<" + self.var(r.choice(["self.inner()", "self.tail()"])) + ">" + self.tag("endmacro") + self.var("selfmac()")
+        has_buf = r.random() < 0.5
+        if has_buf:
+            # a block inside a buffering construct of the BASE template, overridden (or not) by the child
+            f("block-in-buffering-construct")
+            blk = self.text(3) + self.tag("block buf") + self.text(4) + self.tag("endblock") + self.text(3)
+            j = r.randint(0, 4)
+            if j == 0:
+                f("block-in-filter"); base += self.tag("filter upper") + blk + self.tag("endfilter")
+            elif j == 1:
+                f("block-in-set"); base += self.tag("set bufv") + "[" + blk + "]" + self.tag("endset") + "{{ bufv }}{{ bufv|upper }}"
+            elif j == 2:
+                f("block-in-macro"); base += self.tag("macro bufm()") + "(" + blk + ")" + self.tag("endmacro") + "{{ bufm() }}{{ bufm()|upper }}"
+            elif j == 3:
+                f("block-in-call"); base += self.tag("macro bufw()") + "<{{ caller()|upper }}>" + self.tag("endmacro") + self.tag("call bufw()") + blk + self.tag("endcall")
+            else:
+                f("block-in-recursive-loop")
+                base += (self.tag("for n in tree recursive") + "{{ n.v }}" + self.tag("block buf scoped") + "." + self.tag("endblock")
+                         + self.tag("if n.c") + "(" + self.var("loop(n.c)") + ")" + self.tag("endif") + self.tag("endfor"))
         tpl["base"] = base
         parent = "base"
         if r.random() < 0.35:
@@ -667,18 +760,27 @@ class Gen:
             child += self.tag(f"extends '{parent}'")
         child += self.text(4)
         used = {"tail"} if "block tail" in child else set()
-        for b in r.sample(["outer", "inner", "item", "tail"], r.randint(0, 4)):
+        names = ["outer", "inner", "item", "tail"] + (["buf"] if has_buf else [])
+        for b in r.sample(names, r.randint(0, len(names))):
             if b in used:
                 continue
             used.add(b)
-            inner = self.body(rs(), 2, r.randint(1, 2)) if b != "item" else "<{{ x }}>"
+            inner = self.body(rs(), 2, r.randint(1, 2)) if b not in ("item", "buf") else "<{{ x }}>" if b == "item" else self.text(4)
+            if b == "buf" and "block buf scoped" in base:
+                inner = ":{{ n.v }}"
             if r.random() < 0.5:
-                inner += self.var("super()")
+                if r.random() < 0.35:
+                    # `super()` used ONLY by a macro defined in the overriding block
+                    f("macro-uses-super")
+                    sm = "sup" + str(self.fresh(""))
+                    inner += self.tag(f"macro {sm}()") + self.var("super()") + self.tag("endmacro") + self.var(f"{sm}()") * r.randint(1, 2)
+                else:
+                    inner += self.var("super()")
             if b == "outer" and "inner" not in used and r.random() < 0.5:
                 f("nested-block-override")
                 inner += self.tag("block inner") + "nested" + self.var("super()") * r.randint(0, 1) + self.tag("endblock")
                 used.add("inner")
-            child += self.tag(f"block {b}" + (" scoped" if b == "item" else "")) + inner + self.tag("endblock" + r.choice(["", " " + b])) + self.text(3)
+            child += self.tag(f"block {b}" + (" scoped" if b == "item" or (b == "buf" and "block buf scoped" in base) else "")) + inner + self.tag("endblock" + r.choice(["", " " + b])) + self.text(3)
         if r.random() < 0.3:
             f("output-after-blocks")
             child += self.var(self.e_out(rs(), 1)) + self.text(3)
